@@ -85,6 +85,18 @@ func (r *Run) parseUintSym(s []*smt.Term, base int, maxVal uint64) (val *smt.Ter
 	okc := B.And(allValid, noOvf)
 	switch r.decide(dkOther, []*smt.Term{okc, synErr, rngErr}) {
 	case 0:
+		if base == 10 && !n.IsConst() {
+			if r.hornerReg == nil {
+				r.hornerReg = map[*smt.Term]hornerEntry{}
+			}
+			r.hornerReg[n] = hornerEntry{digits: s, maxVal: maxVal}
+			// lossless truncations are rebuilt by the term simplifier, so register them as well
+			for _, w := range []uint8{8, 16, 32} {
+				if maxVal < uint64(1)<<w {
+					r.hornerReg[B.Extract(n, w-1, 0)] = hornerEntry{digits: s, maxVal: maxVal}
+				}
+			}
+		}
 		return n, pOK, true
 	case 1:
 		return smt.Const(64, 0), pSyntax, true
